@@ -293,7 +293,7 @@ pub fn run(tier: Tier) -> i32 {
     for s in SEEDS {
         texts.push((s.to_string(), json!({"driver":"seed"})));
     }
-    if let Ok(rd) = std::fs::read_dir("/repo/prqlc/prqlc/tests/integration/queries") {
+    if let Ok(rd) = std::fs::read_dir(format!("{}/prqlc/prqlc/tests/integration/queries", crate::report::repo_root())) {
         let mut files: Vec<_> = rd.filter_map(|e| e.ok()).map(|e| e.path()).filter(|p| p.extension().map(|x| x == "prql").unwrap_or(false)).collect();
         files.sort();
         for f in files {
